@@ -29,6 +29,7 @@ LAYERWISE = {'relu': 'partial_relu', 'leaky_relu': 'partial_leaky_relu', 'hard_t
 
 def run(ctx):
     helpers.run_for(ctx)
+    prune.check_loop_exhaustive(ctx, 'C18.R3', 'read_layers', '#whole-file', 'entries after that point are not read')
     prune.check_no_unsigned_underflow(ctx, 'C18.R6', '<SimpleNodeEstimator as NodeEstimator>::estimate_nodes')
     F = ctx.facts
     SELF = ('param', 'self')
